@@ -1,5 +1,6 @@
 #!/bin/sh
-# Runs every claimed check (quick) on /repo; prints one line per property.
+# Runs every claimed check (quick) on /repo; one summary line per property
+# (plus at most three VIOLATION lines each).
 for p in $(python3 -c "import json;print(' '.join(c['property_id'] for c in json.load(open('/verif/MANIFEST.json'))['checks']))") "$@"; do
-  /verif/bin/gvc check --property $p --tier quick 2>&1 | grep "^gvc: property\|^VIOLATION\|^KNOWN" | cut -c1-200
+  /verif/bin/gvc check --property $p --tier quick 2>&1 | grep "^gvc: property\|^VIOLATION" | cut -c1-220 | awk '/^VIOLATION/{n++; if(n<=3) print; next} {print}'
 done
